@@ -75,7 +75,7 @@ def mk_env(x, c):
     M = RB.std_params(l)
     q, p, no = M["q"], M["p"], l // 4
     sd = c["seed"]
-    env = {"c": c, "l": l, "M": M, "q": q, "p": p, "no": no, "proto": c["proto"], "kca": bool(c["kca"]), "kcb": bool(c["kcb"]), "sd": sd}
+    env = {"c": c, "l": l, "M": M, "q": q, "p": p, "no": no, "proto": c["proto"], "kca": bool(c["kca"]), "kcb": bool(c["kcb"]), "sd": sd, "shared": bool(c.get("shared"))}
 
     def scal(tag):
         return int.from_bytes(expand(sd + tag, no + 8), "little") % (q - 1) + 1
@@ -240,13 +240,17 @@ def do_run(x, env, mitm=None, ov=None):
             if mitm is not None and mitm[0] == inp:
                 m = mitm[1](m)
         out = pool.out(outlen) if outlen is not None else None
+        inb = None
+        if env.get("shared") and out is not None and m is not None and "i" in tmpl and "o" in tmpl:
+            # one transport buffer for the incoming and the outgoing message (as the library's own BAUTH test drives the steps: Step(buf, buf, state))
+            out = inb = pool.buf(m + b"\xCC" * max(0, outlen - len(m)))
         args = []
         for t in tmpl:
-            args.append({"o": out, "i": pool.buf(m) if t == "i" else None, "l": len(m) if m is not None else 0, "p": peer, "v": CERTVAL, "s": state}[t])
+            args.append({"o": out, "i": (inb if inb is not None else pool.buf(m)) if t == "i" else None, "l": len(m) if m is not None else 0, "p": peer, "v": CERTVAL, "s": state}[t])
         if done(fn, x.call(fn, *args)):
             return res
         if send:
-            res["msgs"].append(out.read())
+            res["msgs"].append(out.read(0, outlen))
     for i, role in enumerate("ab"):
         k = pool.out(32)
         fn = FN[pr]["g"][i]
@@ -361,9 +365,9 @@ def run_honest(ctx, c):
                 raise Fail("%s consumed %d of %d incoming messages" % (fn, cur, ninc))
     multi = env["proto"] == "BSTS" and max(len(m) for m in res["msgs"]) > 512
     ctx.cls(env["proto"], "l%d" % env["l"], "kc%d%d" % (env["kca"], env["kcb"]), "ha_" + hcls(c["ha"]), "hb_" + hcls(c["hb"]), "drv" if drv else "steps",
-            *(["multiblock"] if multi and drv else []))
-    if drv or env["kca"] != env["kcb"]:
-        ctx.nontrivial(base_sig(env), drv, hcls(c["ha"]), hcls(c["hb"]), tuple(c["ta"]["rej"]), tuple(c["tb"]["rej"]), c["ta"]["u"], c["tb"]["u"], multi)
+            *(["multiblock"] if multi and drv else []), *(["shared_buffer"] if env["shared"] else []))
+    if drv or env["kca"] != env["kcb"] or env["shared"]:
+        ctx.nontrivial(base_sig(env), drv, hcls(c["ha"]), hcls(c["hb"]), tuple(c["ta"]["rej"]), tuple(c["tb"]["rej"]), c["ta"]["u"], c["tb"]["u"], multi, env["shared"])
     ctx.sample(c)
 
 
@@ -648,7 +652,7 @@ KINDS = ["oct"] * 8 + ["trunc", "trunc", "zero", "y1", "xp", "yp", "twist", "ord
 
 def tests(tier):
     name = st.one_of(st.integers(0, 20), st.integers(0, 20), st.integers(0, 20), st.integers(330, 700))
-    s_h = s_case(tier, {"drv": st.sampled_from([True, True, True, False]), "na": name, "nb": name})
+    s_h = s_case(tier, {"drv": st.sampled_from([True, True, True, False]), "na": name, "nb": name, "shared": st.sampled_from([False, False, True])})
     tam = st.fixed_dictionaries({"m": st.integers(0, 11), "f": st.integers(0, 5), "kind": st.sampled_from(KINDS), "pos": st.integers(0, 1023), "mask": st.integers(1, 255),
                                  "drv": st.sampled_from([False, True])})
     s_t = s_case(tier, {"tampers": st.lists(tam, min_size=10, max_size=10), "na": name, "nb": name})      # long certificates: altered messages on the multi-block read path of the drivers
